@@ -1,0 +1,103 @@
+//! Session-level pieces: the egress buffer and attaching an in-memory stream to a socket exactly
+//! the way the tcp/ipc listener and connecter attach an accepted/connected stream.
+
+use bytes::Bytes;
+use std::sync::Arc;
+
+use crate::runtime::system_events::ConnectionInteractionModel;
+use crate::runtime::{Command, mailbox};
+use crate::sessionx::actor::SessionConnectionActorX;
+use crate::sessionx::egress_buffer::EgressBuffer;
+use crate::sessionx::states::ActorConfigX;
+use crate::socket::options::ZmtpEngineConfig;
+use crate::socket::types::Socket;
+use crate::transport::inproc_stream::InprocStream;
+
+pub struct EgressBufferH(EgressBuffer);
+
+impl EgressBufferH {
+  pub fn new() -> Self {
+    Self(EgressBuffer::new())
+  }
+  pub fn push(&mut self, data: Bytes, msg_count: usize) {
+    self.0.push(data, msg_count)
+  }
+  pub fn push_priority(&mut self, data: Bytes) {
+    self.0.push_priority(data)
+  }
+  pub fn current_slice(&self) -> Option<&[u8]> {
+    self.0.current_slice()
+  }
+  /// Concatenation view of what `fill_slices` would hand to a vectored write.
+  pub fn gather(&self, max_slices: usize) -> Vec<Vec<u8>> {
+    let mut arr: Vec<std::io::IoSlice<'_>> = (0..max_slices).map(|_| std::io::IoSlice::new(&[])).collect();
+    let n = self.0.fill_slices(&mut arr);
+    arr[..n].iter().map(|s| s.to_vec()).collect()
+  }
+  pub fn advance(&mut self, n: usize) -> usize {
+    self.0.advance(n)
+  }
+  pub fn pending_messages(&self) -> usize {
+    self.0.pending_messages()
+  }
+  pub fn total_pending_bytes(&self) -> usize {
+    self.0.total_pending_bytes()
+  }
+  pub fn is_empty(&self) -> bool {
+    self.0.is_empty()
+  }
+}
+
+/// Hands `io` to `sock` as a freshly accepted (`server_role`) or freshly connected stream:
+/// builds `ActorConfigX`, spawns the real `SessionConnectionActorX` on it and sends
+/// `Command::NewConnectionEstablished` to the socket core — the same sequence as
+/// `transport/tcp.rs` after `accept()` / `connect()`, with the kernel socket replaced by an
+/// in-memory duplex stream. Returns the session handle id.
+pub async fn attach_stream(
+  sock: &Socket,
+  io: tokio::io::DuplexStream,
+  server_role: bool,
+  connected_uri: &str,
+  logical_uri: &str,
+) -> usize {
+  let socket_logic = sock.inner.clone();
+  let core = socket_logic.core().clone();
+  let context = core.context.clone();
+  let (options, monitor_tx) = {
+    let s = core.core_state.read();
+    (s.options.clone(), s.get_monitor_sender_clone())
+  };
+  let sca_handle_id = context.inner().next_handle();
+  let actor_conf = ActorConfigX {
+    context: context.clone(),
+    monitor_tx,
+    logical_target_endpoint_uri: logical_uri.to_string(),
+    connected_endpoint_uri: connected_uri.to_string(),
+    is_server_role: server_role,
+  };
+  let engine_conf = Arc::new(ZmtpEngineConfig::from(&*options));
+  let (command_sender_for_sca, command_receiver_for_sca) =
+    mailbox(context.inner().get_actor_mailbox_capacity());
+  let task = SessionConnectionActorX::create_and_spawn(
+    sca_handle_id,
+    core.handle,
+    InprocStream::new(io),
+    actor_conf,
+    engine_conf,
+    command_receiver_for_sca,
+    socket_logic.clone(),
+    None,
+  );
+  let cmd = Command::NewConnectionEstablished {
+    endpoint_uri: connected_uri.to_string(),
+    target_endpoint_uri: logical_uri.to_string(),
+    connection_iface: None,
+    interaction_model: ConnectionInteractionModel::ViaSca {
+      sca_mailbox: command_sender_for_sca,
+      sca_handle_id,
+    },
+    managing_actor_task_id: Some(task.id()),
+  };
+  let _ = socket_logic.mailbox().send(cmd).await;
+  sca_handle_id
+}
